@@ -89,15 +89,14 @@ func runC08(c *kit.Ctx) {
 		} else {
 			c.Funcs[kit.FuncName(cb)] = true
 			// replaced variable: captured alloc named "replaced"
-			var replFV *ssa.FreeVar
-			var ovFV *ssa.FreeVar
-			for _, fv := range cb.FreeVars {
-				if fv.Name() == "replaced" {
-					replFV = fv
-				}
-				if fv.Name() == "overlaps" {
-					ovFV = fv
-				}
+			// put's named results (overlaps, replaced) as captured by the callback
+			var replFV, ovFV *ssa.FreeVar
+			ovA, replA := resultAlloc(put, 0), resultAlloc(put, 1)
+			if replA != nil {
+				replFV = freeVarFor(cb, replA)
+			}
+			if ovA != nil {
+				ovFV = freeVarFor(cb, ovA)
 			}
 			var replStores []*ssa.Store
 			kit.Instrs(cb, func(in ssa.Instruction) {
@@ -174,7 +173,7 @@ func runC08(c *kit.Ctx) {
 				onReplaced := false
 				for _, f := range kit.FactsAt(call.Block()) {
 					if l, ok := f.Cond.(*ssa.UnOp); ok && f.Pol {
-						if a, ok := l.X.(*ssa.Alloc); ok && a.Comment == "replaced" {
+						if a, ok := l.X.(*ssa.Alloc); ok && replA != nil && a == replA {
 							onReplaced = true
 						}
 					}
